@@ -1,7 +1,7 @@
 package quicklz
 
 /*
-#cgo CFLAGS: -I .
+#cgo CFLAGS: -I . -DQLZ_MEMORY_SAFE
 #include "stdlib.h"
 #include "quicklz.h"
 size_t qlz_compress(const void *source, char *destination, size_t size, char *scratch_compress);
@@ -53,6 +53,8 @@ func CDecompress(src []byte, sizeD int) (dst cmem.CArray, err error) {
 	size := int(C.qlz_decompress(c_src, c_dst, c_buf))
 	if size != sizeD {
 		err = fmt.Errorf("fail to alloc for decompress, size %d != %d", sizeD, size)
+		dst.Free()
+		dst = cmem.CArray{}
 		return
 	}
 	dst.Body = dst.Body[:size]
